@@ -354,12 +354,47 @@ inductive Expr
   | bin (op : BinOp) (l r : Expr)
   deriving DecidableEq, Repr, Inhabited
 
+abbrev Ctx := List (String × Ty)
+
+/-- Switches that turn the model of the code **as it is** (`Cfg.real`, all off) into the model of
+the code with the proposed repairs of the recorded findings.  Every theorem about the
+implementation is stated for `Cfg.real`; the repaired variants are only used by the oracle to
+attribute a failure to a recorded finding ("it disappears under this repair"). -/
+structure Cfg where
+  /-- repair: the write path of `Stmt::Assign` coerces the value to the slot's declared type
+  (`Overflow` when it does not fit) instead of storing it as is -/
+  coerce : Option Ctx := none
+  /-- repair: an untyped integer literal is lowered to the smallest-fit kind the checker gave it
+  (`smallest_int_type_for_literal`) instead of DINT -/
+  litSmallest : Bool := false
+  /-- repair: `RETURN` in a PROGRAM body ends the cycle normally (docs/specs/06 §6) -/
+  returnOk : Bool := false
+  /-- repair: FOR bounds are converted exactly (no `ULINT as i64` wrap, no i64 counter) -/
+  forExact : Bool := false
+
+/-- The code as it is. -/
+def Cfg.real : Cfg := {}
+
+/-- `literals.rs: smallest_int_type_for_literal` for a decimal literal, cut at `i32::MAX`
+because `lower_literal` rejects larger untyped literals ("integer literal out of range"). -/
+def smallestSigned (v : Int) : Option IKind :=
+  if v < 0 then none
+  else if v ≤ 127 then some .sint
+  else if v ≤ 32767 then some .int
+  else if v ≤ i32Max then some .dint
+  else none
+
 /-- `harness/lower/expr.rs: lower_literal`: an untyped integer literal becomes `DInt`, a typed one
 is coerced to its type (`coerce_value_to_type`); both reject out-of-range values at compile time,
 which `Expr.lowerable` records. -/
-def litVal (ty : Option IKind) (v : Int) : Val :=
+def litVal (cfg : Cfg) (ty : Option IKind) (v : Int) : Val :=
   match ty with
-  | none => .i .dint v
+  | none =>
+    if cfg.litSmallest then
+      match smallestSigned v with
+      | some k => .i k v
+      | none => .i .dint v
+    else .i .dint v
   | some k => .i k v
 
 abbrev Env := List (String × Val)
@@ -398,28 +433,28 @@ def writeName (σ : Store) (x : String) (v : Val) : Store :=
   | none => { σ with globals := insert x v σ.globals }
 
 /-- `eval/expr/eval.rs: eval_expr` (AND/OR short-circuit on `Bool(false)` / `Bool(true)`). -/
-def evalExpr (σ : Store) : Expr → M Val
-  | .lit ty v => pure (litVal ty v)
+def evalExpr (cfg : Cfg) (σ : Store) : Expr → M Val
+  | .lit ty v => pure (litVal cfg ty v)
   | .blit v => pure (.b v)
   | .var x => readName σ x
   | .un op e => do
-    let v ← evalExpr σ e
+    let v ← evalExpr cfg σ e
     applyUnary op v
   | .bin op l r =>
     match op with
     | .and => do
-      let a ← evalExpr σ l
+      let a ← evalExpr cfg σ l
       if a = .b false then pure (.b false) else do
-        let b ← evalExpr σ r
+        let b ← evalExpr cfg σ r
         applyBinary .and a b
     | .or => do
-      let a ← evalExpr σ l
+      let a ← evalExpr cfg σ l
       if a = .b true then pure (.b true) else do
-        let b ← evalExpr σ r
+        let b ← evalExpr cfg σ r
         applyBinary .or a b
     | op => do
-      let a ← evalExpr σ l
-      let b ← evalExpr σ r
+      let a ← evalExpr cfg σ l
+      let b ← evalExpr cfg σ r
       applyBinary op a b
 
 /-! ## Statements (`eval/stmt.rs`) -/
@@ -469,8 +504,8 @@ inductive Flow
   deriving DecidableEq, Repr, Inhabited
 
 /-- `eval/stmt.rs: eval_bool`. -/
-def evalBool (σ : Store) (e : Expr) : M Bool :=
-  match evalExpr σ e with
+def evalBool (cfg : Cfg) (σ : Store) (e : Expr) : M Bool :=
+  match evalExpr cfg σ e with
   | .ok (.b v) => pure v
   | .ok (.i _ _) => fault .ConditionNotBool .condNotBool
   | .error s => .error s
@@ -491,8 +526,8 @@ def findBranch (n : Int) : Branches → Option Block
   | .cons ls b rest => if ls.any (Label.matches n) then some b else findBranch n rest
 
 /-- `eval/stmt.rs: int_value`: ULINT is cast with `as i64` (wraps above `i64::MAX`). -/
-def intValue : Val → M Int
-  | .i .ulint x => pure (if x ≤ i64Max then x else x - 18446744073709551616)
+def intValue (cfg : Cfg) : Val → M Int
+  | .i .ulint x => pure (if cfg.forExact || decide (x ≤ i64Max) then x else x - 18446744073709551616)
   | .i _ x => pure x
   | .b _ => fault .TypeMismatch .forIntValue
 
@@ -510,6 +545,26 @@ def coerceLoopValue (template : Val) (n : Int) : M Val :=
     else if k.inRange n then pure (.i k n) else fault .Overflow .forCoerceRange
   | .b _ => fault .TypeMismatch .forCoerceBool
 
+/-- `harness/coerce.rs`-style coercion used by the *repaired* write path only. -/
+def coerceTo (t : Ty) (v : Val) : M Val :=
+  match t, v with
+  | .bool, .b x => pure (.b x)
+  | .int k, .i _ x => if k.inRange x then pure (.i k x) else fault .Overflow .narrow
+  | _, _ => fault .TypeMismatch .arithNonNumeric
+
+/-- The write of `Stmt::Assign`: `write_lvalue(ctx, target, value)` stores the evaluated value
+**as is** (`cfg.coerce = none`); the repaired variant coerces to the declared type first. -/
+def writeVal (cfg : Cfg) (σ : Store) (x : String) (v : Val) : Store × Option Stop :=
+  match cfg.coerce with
+  | none => (writeName σ x v, none)
+  | some Γ =>
+    match Γ.lookup x with
+    | none => (writeName σ x v, none)
+    | some t =>
+      match coerceTo t v with
+      | .ok v' => (writeName σ x v', none)
+      | .error st => (σ, some st)
+
 /-- Result of executing something: the store as it is when execution stops (also on a fault:
 the Rust code mutates storage in place) and how it stopped. -/
 abbrev Res := Store × M Flow
@@ -519,37 +574,40 @@ def timeout : M Flow := fault .ExecutionTimeout .budget
 mutual
 /-- `eval/stmt.rs: exec_stmt`.  `fuel` bounds the recursion depth and stands for the execution
 budget (`check_execution_budget`); `ld` is `ctx.loop_depth`. -/
-def execStmt : Nat → Nat → Store → Stmt → Res
+def execStmt (cfg : Cfg) : Nat → Nat → Store → Stmt → Res
   | 0, _, σ, _ => (σ, timeout)
   | fuel + 1, ld, σ, s =>
     match s with
     | .assign x e =>
-      match evalExpr σ e with
-      | .ok v => (writeName σ x v, .ok .cont)
+      match evalExpr cfg σ e with
+      | .ok v =>
+        match writeVal cfg σ x v with
+        | (σ', none) => (σ', .ok .cont)
+        | (σ', some st) => (σ', .error st)
       | .error st => (σ, .error st)
     | .ite c t elifs el =>
-      match evalBool σ c with
-      | .ok true => execBlock fuel ld σ t
-      | .ok false => execElifs fuel ld σ elifs el
+      match evalBool cfg σ c with
+      | .ok true => execBlock cfg fuel ld σ t
+      | .ok false => execElifs cfg fuel ld σ elifs el
       | .error st => (σ, .error st)
     | .case sel brs el =>
-      match evalExpr σ sel >>= selectorInt with
+      match evalExpr cfg σ sel >>= selectorInt with
       | .ok (some n) =>
         match findBranch n brs with
-        | some b => execBlock fuel ld σ b
-        | none => execBlock fuel ld σ el
-      | .ok none => execBlock fuel ld σ el
+        | some b => execBlock cfg fuel ld σ b
+        | none => execBlock cfg fuel ld σ el
+      | .ok none => execBlock cfg fuel ld σ el
       | .error st => (σ, .error st)
     | .for x s e step body =>
       -- start, end, step are evaluated once, in this order, then converted with int_value
       let stepE := match step with | some st => st | none => Expr.lit (some .int) 1
       let pre : M (Int × Int × Int × Val) := do
-        let sv ← evalExpr σ s
-        let ev ← evalExpr σ e
-        let tv ← evalExpr σ stepE
-        let si ← intValue sv
-        let ei ← intValue ev
-        let ti ← intValue tv
+        let sv ← evalExpr cfg σ s
+        let ev ← evalExpr cfg σ e
+        let tv ← evalExpr cfg σ stepE
+        let si ← intValue cfg sv
+        let ei ← intValue cfg ev
+        let ti ← intValue cfg tv
         if ti = 0 then fault .ForStepZero .forStepZero else do
         let tmpl ← readName σ x
         if tmpl.isUnsignedInt && decide (ti < 0) then fault .TypeMismatch .forUnsignedNegStep else do
@@ -559,76 +617,76 @@ def execStmt : Nat → Nat → Store → Stmt → Res
       | .error st => (σ, .error st)
       | .ok (si, ei, ti, first) =>
         -- the template keeps its *kind*; `first` has that kind
-        forLoop fuel ld (writeName σ x first) x first si ei ti body
-    | .while c body => whileLoop fuel ld σ c body
-    | .repeat body c => repeatLoop fuel ld σ body c
+        forLoop cfg fuel ld (writeName σ x first) x first si ei ti body
+    | .while c body => whileLoop cfg fuel ld σ c body
+    | .repeat body c => repeatLoop cfg fuel ld σ body c
     | .exit => if ld = 0 then (σ, fault .InvalidControlFlow .exitOutsideLoop) else (σ, .ok .exit)
     | .continue => if ld = 0 then (σ, fault .InvalidControlFlow .exitOutsideLoop) else (σ, .ok .loopCont)
     | .ret => (σ, .ok .ret)
 
 /-- `eval/stmt.rs: exec_block` (no labels in the fragment). -/
-def execBlock : Nat → Nat → Store → Block → Res
+def execBlock (cfg : Cfg) : Nat → Nat → Store → Block → Res
   | 0, _, σ, _ => (σ, timeout)
   | _ + 1, _, σ, .nil => (σ, .ok .cont)
   | fuel + 1, ld, σ, .cons s rest =>
-    match execStmt fuel ld σ s with
-    | (σ', .ok .cont) => execBlock fuel ld σ' rest
+    match execStmt cfg fuel ld σ s with
+    | (σ', .ok .cont) => execBlock cfg fuel ld σ' rest
     | r => r
 
 /-- The `for (elsif_cond, elsif_block) in else_if` loop of `Stmt::If`, then the ELSE block. -/
-def execElifs : Nat → Nat → Store → Elifs → Block → Res
+def execElifs (cfg : Cfg) : Nat → Nat → Store → Elifs → Block → Res
   | 0, _, σ, _, _ => (σ, timeout)
-  | fuel + 1, ld, σ, .nil, el => execBlock fuel ld σ el
+  | fuel + 1, ld, σ, .nil, el => execBlock cfg fuel ld σ el
   | fuel + 1, ld, σ, .cons c b rest, el =>
-    match evalBool σ c with
-    | .ok true => execBlock fuel ld σ b
-    | .ok false => execElifs fuel ld σ rest el
+    match evalBool cfg σ c with
+    | .ok true => execBlock cfg fuel ld σ b
+    | .ok false => execElifs cfg fuel ld σ rest el
     | .error st => (σ, .error st)
 
 /-- The `loop { … }` of `Stmt::For`.  `tmpl` only carries the kind of the control variable as it
 was when the loop started (`control_template`). -/
-def forLoop : Nat → Nat → Store → String → Val → Int → Int → Int → Block → Res
+def forLoop (cfg : Cfg) : Nat → Nat → Store → String → Val → Int → Int → Int → Block → Res
   | 0, _, σ, _, _, _, _, _, _ => (σ, timeout)
   | fuel + 1, ld, σ, x, tmpl, cur, endV, step, body =>
     if (step > 0 ∧ cur > endV) ∨ (step < 0 ∧ cur < endV) then (σ, .ok .cont) else
-    match execBlock fuel (ld + 1) σ body with
+    match execBlock cfg fuel (ld + 1) σ body with
     | (σ', .error st) => (σ', .error st)
     | (σ', .ok .exit) => (σ', .ok .cont)
     | (σ', .ok .ret) => (σ', .ok .ret)
     | (σ', .ok _) =>
       let next := cur + step
-      if next < i64Min ∨ next > i64Max then (σ', fault .Overflow .forIncrement) else
+      if !cfg.forExact ∧ (next < i64Min ∨ next > i64Max) then (σ', fault .Overflow .forIncrement) else
       match coerceLoopValue tmpl next with
       | .error st => (σ', .error st)
-      | .ok v => forLoop fuel ld (writeName σ' x v) x tmpl next endV step body
+      | .ok v => forLoop cfg fuel ld (writeName σ' x v) x tmpl next endV step body
 
 /-- The `loop { … }` of `Stmt::While`. -/
-def whileLoop : Nat → Nat → Store → Expr → Block → Res
+def whileLoop (cfg : Cfg) : Nat → Nat → Store → Expr → Block → Res
   | 0, _, σ, _, _ => (σ, timeout)
   | fuel + 1, ld, σ, c, body =>
-    match evalBool σ c with
+    match evalBool cfg σ c with
     | .error st => (σ, .error st)
     | .ok false => (σ, .ok .cont)
     | .ok true =>
-      match execBlock fuel (ld + 1) σ body with
+      match execBlock cfg fuel (ld + 1) σ body with
       | (σ', .error st) => (σ', .error st)
       | (σ', .ok .exit) => (σ', .ok .cont)
       | (σ', .ok .ret) => (σ', .ok .ret)
-      | (σ', .ok _) => whileLoop fuel ld σ' c body
+      | (σ', .ok _) => whileLoop cfg fuel ld σ' c body
 
 /-- The `loop { … }` of `Stmt::Repeat`. -/
-def repeatLoop : Nat → Nat → Store → Block → Expr → Res
+def repeatLoop (cfg : Cfg) : Nat → Nat → Store → Block → Expr → Res
   | 0, _, σ, _, _ => (σ, timeout)
   | fuel + 1, ld, σ, body, c =>
-    match execBlock fuel (ld + 1) σ body with
+    match execBlock cfg fuel (ld + 1) σ body with
     | (σ', .error st) => (σ', .error st)
     | (σ', .ok .exit) => (σ', .ok .cont)
     | (σ', .ok .ret) => (σ', .ok .ret)
     | (σ', .ok _) =>
-      match evalBool σ' c with
+      match evalBool cfg σ' c with
       | .error st => (σ', .error st)
       | .ok true => (σ', .ok .cont)
-      | .ok false => repeatLoop fuel ld σ' body c
+      | .ok false => repeatLoop cfg fuel ld σ' body c
 end
 
 /-! ## Programs and the scan cycle (`harness/compiler/vars.rs`, `runtime/cycle.rs`) -/
@@ -655,8 +713,6 @@ def VarDecl.initVal (d : VarDecl) : Val :=
   | .bool => .b (d.init != 0)
   | .int k => .i k d.init
 
-abbrev Ctx := List (String × Ty)
-
 def Program.ctx (p : Program) : Ctx := p.decls.map fun d => (d.name, d.ty)
 
 def Program.initStore (p : Program) : Store :=
@@ -673,22 +729,25 @@ abbrev CycleOut := Option Stop
 
 /-- `runtime/cycle.rs: execute_cycle` → `execute_program` for the single (background) program:
 latch test, frame push, body, frame pop on every path, `Continue` required, fault latched. -/
-def cycle (p : Program) (fuel : Nat) (st : RunState) : RunState × CycleOut :=
+def cycle (cfg : Cfg) (p : Program) (fuel : Nat) (st : RunState) : RunState × CycleOut :=
   if st.faulted then (st, some (.fault .ResourceFaulted .latched)) else
   let σ0 := { st.store with frames := p.name :: st.store.frames }
-  let (σ1, r) := execBlock fuel 0 σ0 p.body
+  let (σ1, r) := execBlock cfg fuel 0 σ0 p.body
   let σ2 := { σ1 with frames := σ1.frames.tail }
   match r with
   | .ok .cont => ({ store := σ2, faulted := false }, none)
+  | .ok .ret =>
+    if cfg.returnOk then ({ store := σ2, faulted := false }, none)
+    else ({ store := σ2, faulted := true }, some (.fault .InvalidControlFlow .programFlow))
   | .ok _ => ({ store := σ2, faulted := true }, some (.fault .InvalidControlFlow .programFlow))
   | .error s => ({ store := σ2, faulted := true }, some s)
 
 /-- Run `n` cycles from a state, collecting the reports. -/
-def runCycles (p : Program) (fuel : Nat) : Nat → RunState → RunState × List CycleOut
+def runCycles (cfg : Cfg) (p : Program) (fuel : Nat) : Nat → RunState → RunState × List CycleOut
   | 0, st => (st, [])
   | n + 1, st =>
-    let (st1, o) := cycle p fuel st
-    let (st2, os) := runCycles p fuel n st1
+    let (st1, o) := cycle cfg p fuel st
+    let (st2, os) := runCycles cfg p fuel n st1
     (st2, o :: os)
 
 /-! ## Fault classes of the property statement (C01) -/
